@@ -160,6 +160,7 @@ def record_combo(job):
     C6 = np.asarray(law.C)
     slots = law.layout.slots
     vis = bool(spec.get("vis"))
+    refused = False
     dt = 0.1 if vis else 0.0
     for n in range(14):
         d = rng.normal(size=ns)
@@ -170,7 +171,17 @@ def record_combo(job):
         E_ = FeArray.asfearray(eps[None, None])
         zin = None if z is None else FeArray.asfearray(np.array(z))
         zcopy = None if z is None else np.array(z).copy()
-        sig, Calg, zNew, ok = law.Integrate(E_, zin, dt)
+        try:
+            sig, Calg, zNew, ok = law.Integrate(E_, zin, dt)
+            if np.all(ok):
+                law.Compute_strain_6d(E_, zNew, 0.0)
+        except AssertionError as ex:
+            # the library refuses a step it cannot integrate ("... did not converge ...: reduce the load step"): a refusal is not a
+            # returned state, the path ends here like one whose convergence flag is False
+            if "did not converge" in str(ex):
+                refused = True
+                break
+            raise
         if not np.all(ok):
             break
         st = dict(n=n + 1, admissible=1, dp_nonneg=1, traceless=1, dissipation=1, tangent=1, solvers=1, planestress=1, pure=1)
@@ -216,8 +227,14 @@ def record_combo(job):
                 ep, em = eps.copy(), eps.copy()
                 ep[j] += hfd
                 em[j] -= hfd
-                rp = law.Integrate(FeArray.asfearray(ep[None, None]), zin, dt, withTangent=False)
-                rm = law.Integrate(FeArray.asfearray(em[None, None]), zin, dt, withTangent=False)
+                try:
+                    rp = law.Integrate(FeArray.asfearray(ep[None, None]), zin, dt, withTangent=False)
+                    rm = law.Integrate(FeArray.asfearray(em[None, None]), zin, dt, withTangent=False)
+                except AssertionError as ex:
+                    if "did not converge" not in str(ex):
+                        raise
+                    straddles = True  # a neighbouring state the library refuses to integrate: no quotient from this stencil
+                    break
                 for r_ in (rp, rm):  # a neighbour on the other side of the elastic / plastic switch: no derivative across the kink
                     if ((np.asarray(r_[2])[0, 0][slots["p"]][0] - p_old) > 1e-13) != flowing:
                         straddles = True
@@ -232,12 +249,17 @@ def record_combo(job):
             st["tangent_err"] = min(errs)
         if not errs:
             st["tangent_skipped"] = 1  # every stencil straddles the yield switch
-        s2 = np.asarray(laws["newton"].Integrate(E_, zin, dt)[0])[0, 0]
-        if np.abs(s2 - np.asarray(sig)[0, 0]).max() > 1e-7 * max(1.0, np.abs(s2).max()):
+        try:
+            s2 = np.asarray(laws["newton"].Integrate(E_, zin, dt)[0])[0, 0]
+        except AssertionError as ex:
+            if "did not converge" not in str(ex):
+                raise
+            s2 = None  # the other local solver refuses this step: nothing to compare
+        if s2 is not None and np.abs(s2 - np.asarray(sig)[0, 0]).max() > 1e-7 * max(1.0, np.abs(s2).max()):
             st["solvers"] = 0
         steps.append(st)
         z = np.array(zNew)
-    return {"id": ident, "steps": steps, "rejected": ""}
+    return {"id": ident, "steps": steps, "rejected": "", "refused": refused}
 
 
 # ---------------------------------------------------------------------------------------
@@ -354,7 +376,7 @@ def run(ctx):
     recs = ctx.pmap(record_combo, jobs)
     recs = [r for r in recs if r is not None]
     rejected = sorted({r["id"] for r in recs if r.get("rejected")})
-    traces = [r for r in recs if r["steps"]]
+    traces = [r for r in recs if r.get("steps")]
     path = os.path.join(ctx.scratch, "plasticity_traces.json")
     json.dump(traces, open(path, "w"))
     r2 = ctx.tlc("Trace_Plasticity", "Trace_Plasticity.cfg", workers=8, env={"PLASTICITY_TRACES": path}, timeout=1200)
@@ -371,7 +393,7 @@ def run(ctx):
             if v[key]:
                 parts = v["id"].split("/")
                 ctx.violation(f"combo/{key}/{parts[0]}/{parts[2]}/{parts[3]}", f"{v['id']}: {msg} at steps {v[key][:6]}", {"id": v["id"], "verdict": v})
-    ctx.section("combinations", recorded=len(traces), rejected_by_constructor=rejected)
+    ctx.section("combinations", recorded=len(traces), rejected_by_constructor=rejected, paths_ended_by_a_refused_step=sum(1 for r in recs if r.get("refused")))
     # (3) commit discipline
     commit_section(ctx, 60 if ctx.thorough else 16, ctx.seed + 3)
     ctx.cov["rule"] = "exhaustive uniaxial strain paths of Plasticity1D.tla replayed (3-D code, two local solvers, plane stress); random non-proportional traces per constitutive combination validated by TLC; commit-discipline behaviours replayed; distinct = (material, solver, sign pattern) + combinations"
